@@ -92,7 +92,7 @@ class PROP(Prop):
         src = ast.unparse(fn)
         order = [src.find("gw.exit()"), src.find("safe_terminate("), src.find("self._gateways_to_join[:] = []")]
         out.append(("static/Group.terminate/exit-then-safe_terminate-then-clear", all(p >= 0 for p in order) and order == sorted(order), f"positions {order}"))
-        mk = extract.flat_func(m, "Group.makegateway")
+        mk = m.func("Group.makegateway")
         msrc = ast.unparse(mk)
         pos = [msrc.find("self.allocate_id(spec)")] + [msrc.find(x) for x in ("create_io(", "remote_exec(gateway_io)")]
         out.append(("static/Group.makegateway/id-allocated-before-any-process-is-started", pos[0] >= 0 and all(p < 0 or pos[0] < p for p in pos[1:]), f"positions {pos}"))
